@@ -382,6 +382,21 @@ def find_scales(machine, kappa):
                 lo = mid
             else:
                 hi = mid
+    # a scale whose hardest site is 740..744 nats below the hardest site at the `normal` scale: seen
+    # from an evaluation at `normal`, it is as far away as the sub-normal band is from 1
+    if out["normal"] is not None and out["underflow"] is not None:
+        _, mn0 = machine.reference(out["normal"], kappa)
+        lo, hi = out["normal"], out["underflow"]
+        for _ in range(40):
+            mid = math.sqrt(lo * hi)
+            _, mn = machine.reference(mid, kappa)
+            if mn0 - 744.0 <= mn <= mn0 - 740.0:
+                out["drop"] = mid
+                break
+            if mn > mn0 - 740.0:
+                lo = mid
+            else:
+                hi = mid
     return out
 
 
@@ -446,7 +461,26 @@ def generate(seed, index, tier):
         else:
             ops.append({"op": "force_rescale"})
     ops.append({"op": "eval"})
-    if sc.get("deep") is not None and w.bernoulli(0.7):
+    w2 = st["workload2"]
+    hard = "deep" if sc.get("deep") is not None else ("subnormal" if sc.get("subnormal") is not None else None)
+    if hard and "normal" in avail and w2.bernoulli(0.5):
+        # with rescaling on: an easy evaluation, then one that is ~710..745 nats harder per site, in
+        # the same batch shape (per-node scaling factors must belong to the evaluation they are used in)
+        worst = sc.get("underflow") or sc[hard]
+        tail = [{"op": "set", "scales": [worst]}, {"op": "eval"}, {"op": "set", "scales": [sc["normal"]]}, {"op": "eval"}, {"op": "set", "scales": [sc[hard]]}, {"op": "eval"},
+                {"op": "set", "scales": [sc["normal"], sc["normal"]]}, {"op": "eval"}, {"op": "set", "scales": [sc["normal"], sc[hard]]}, {"op": "eval"}]
+        ops += tail
+        if sc.get("drop") is not None:
+            ops += [{"op": "set", "scales": [sc["normal"]]}, {"op": "eval"}, {"op": "eval"}, {"op": "set", "scales": [sc["drop"]]}, {"op": "eval"},
+                    {"op": "set", "scales": [sc["normal"], sc["normal"]]}, {"op": "eval"}, {"op": "set", "scales": [sc["drop"], sc["normal"]]}, {"op": "eval"}]
+    if sc.get("saturated") is not None and hard and w2.bernoulli(0.6):
+        # flag still off: every site in the normal range on saturated branches, then shorter branches
+        # on which some columns gain and others fall into the sub-normal band (the total need not drop)
+        first = [{"op": "set", "scales": [sc["saturated"]]}, {"op": "eval"}, {"op": "set", "scales": [sc[hard]]}, {"op": "eval"}]
+        if w2.bernoulli(0.4):
+            first = [{"op": "set", "scales": [sc["saturated"], sc["saturated"]]}, {"op": "eval"}, {"op": "set", "scales": [sc["saturated"], sc[hard]]}, {"op": "eval"}]
+        ops = first + ops
+    elif sc.get("deep") is not None and w.bernoulli(0.7):
         # the evaluation that has to *decide* the switch sees the bottom of the band: put it first,
         # while the flag is still off (single or as one row of a batch)
         first = [{"op": "set", "scales": [sc["deep"]]}, {"op": "eval"}]
